@@ -43,7 +43,8 @@ ASSUMPTIONS = [
     "callable dependencies (`depends_on(lambda test: ...)`) are pure and total; fixture/test/hook bodies do not fail",
     "per_thread=True only with scope session/suite (the @lcc.fixture decorator rejects anything else at declaration time)",
     "recursion depth of valid chains stays far below sys.getrecursionlimit() (generated chains <= 8 fixtures, <= 7 tests)",
-    "no leaf suite without tests is generated (D1: empty suite + nb_threads >= 2 raises LookupError in on_suite_end; owned by C01/C07)",
+    "leaf suites without tests are generated rarely (3%): D1 (empty suite + nb_threads >= 2 raised LookupError in on_suite_end) "
+    "was repaired in /repo by 273e673; its witness stays in the corpus of C14.run",
 ]
 RULE = ("generated project; non-trivial = at least one fixture-to-fixture dependency edge and at least one consumer (test argument, "
         "setup_suite argument or injected attribute); both accepted and rejected projects must appear in a run; "
@@ -68,10 +69,6 @@ def hit(tag):
 # --------------------------------------------------------------------------------------------
 # case -> real project
 # --------------------------------------------------------------------------------------------
-
-def _ident(s):
-    return re.fullmatch(r"[A-Za-z_][A-Za-z0-9_]*", s) is not None
-
 
 def fixtures_source(case):
     out = []
